@@ -14,7 +14,9 @@ makes one of them reachable cannot be proved equal to the model.
 import ast, sys, os, textwrap
 
 REPO = os.environ.get("VERIF_REPO", "/repo")
-OUT = os.path.join(os.path.dirname(os.path.abspath(__file__)), "..", "coq", "theories", "PySrcSd.v")
+OUTDIR = os.path.join(os.path.dirname(os.path.abspath(__file__)), "..", "coq", "theories")
+# generated file -> functions (one file per group of properties: bfs / dfs are tied to C02, C03; expand_to_target to C06)
+GROUPS = [("PySrcSd.v", ["expand_bfs", "expand_dfs"]), ("PySrcSdTarget.v", ["expand_to_target"])]
 
 class Unsupported(Exception):
     pass
@@ -410,14 +412,15 @@ def pretty(t):
     out.append(line)
     return "\n".join(out)
 
-def translate():
-    parts = ["(* PySrcSd.v -- GENERATED by tools/py2coq_sd.py from the current sources of /repo/biobalm/_sd_algorithms; do not edit.",
+def translate(fname, names):
+    parts = [f"(* {fname} -- GENERATED by tools/py2coq_sd.py from the current sources of /repo/biobalm/_sd_algorithms; do not edit.",
              "   Each definition is the translation of the Python function of the same name (embedding: PyLibSd.v).",
-             "   PySrcSdFacts.v proves them equal to the model's strategy functions of Diagram.v. *)",
+             "   PySrcSdFacts.v / PySrcSdTargetFacts.v prove them equal to the model's strategy functions of Diagram.v. *)",
              "From Coq Require Import List Bool Arith.", "Import ListNotations.",
              "From BB Require Import BN Diagram PyLib PyLibSd.", ""]
     for spec in FUNCS:
         name, path = spec["name"], spec["path"]
+        if name not in names: continue
         mod = ast.parse(open(os.path.join(REPO, path)).read())
         nodes = [n for n in mod.body if isinstance(n, ast.FunctionDef) and n.name == name]
         if len(nodes) != 1: raise Unsupported(f"{path}: function {name} not found exactly once")
@@ -444,19 +447,20 @@ def translate():
 
 def main(argv):
     try:
-        text = translate()
+        texts = [(os.path.join(OUTDIR, f), translate(f, names)) for f, names in GROUPS]
     except Unsupported as e:
         print("py2coq_sd: UNSUPPORTED: " + str(e), file=sys.stderr)
         return 2
     if len(argv) > 1 and argv[1] == "--check":
-        old = open(OUT).read() if os.path.exists(OUT) else ""
-        print("unchanged" if old == text else "CHANGED")
-        return 0 if old == text else 1
-    if os.path.exists(OUT) and open(OUT).read() == text:
-        print("unchanged", os.path.normpath(OUT))
-    else:
-        open(OUT, "w").write(text)
-        print("wrote", os.path.normpath(OUT))
+        same = all(os.path.exists(o) and open(o).read() == t for o, t in texts)
+        print("unchanged" if same else "CHANGED")
+        return 0 if same else 1
+    for o, t in texts:
+        if os.path.exists(o) and open(o).read() == t:
+            print("unchanged", os.path.normpath(o))
+        else:
+            open(o, "w").write(t)
+            print("wrote", os.path.normpath(o))
     return 0
 
 if __name__ == "__main__":
